@@ -123,6 +123,7 @@ func main() {
 	if sch != nil {
 		genResolver(c, sch)
 		genFormatter(c, sch)
+		genFmtCode(c, sch)
 		genGrammar(c, sch, "php7")
 		genGrammar(c, sch, "php5")
 	}
